@@ -5,6 +5,7 @@ from terms import origin, show, calls_in, mentions, rvalue_origin, mentions_deep
 from unord import Unord
 from guards import lin
 import roles
+import tablerules as T
 
 
 def _engine_closure_calling(F, engine_method, callee_method):
@@ -76,6 +77,9 @@ def run(ctx):
                 ok = True
         R.ob(ok, "CONST", h.where(), "CONST|index-key|shape", "index key is no longer (block_number as u128) << 64 | tx_idx",
              sample={"rule": "CONST", "fn": "get_number_and_index_key", "shape": "(block<<64)|idx"})
+    # index rows (incl. contract address -> inscription id) are stamped with the block they belong to, so that a reorg
+    # removes them together with the transaction they point at
+    T.clause_stamps(R, F, CG)
     # 2. finalise order
     fin = _engine_closure_calling(F, "finalise_block", "set_block_hash")
     R.floor("finalise_closure", len(fin), 1)
